@@ -329,6 +329,44 @@ def url_dispatch(si: int, ext: int, with_opts: bool) -> bool:
     return True
 
 
+def real_zip(depth: int, indir: bool) -> bool:
+    """
+    requires: 0 <= depth <= 3
+    """
+    # validation of the archive model against the REAL zipfile module (concrete; run as a self-test): a module nested
+    # `depth` archives deep is found with its exact content through the unmodified ZipReader
+    import io
+    import os
+    import tempfile
+    import zipfile
+    import importlib
+    importlib.reload(zipreader)             # undo any stub installed by zip_reader() in this process
+    vars(zipreader).pop('open', None)
+    content = b'FOO-MIB DEFINITIONS ::= BEGIN END -- caf\xc3\xa9'
+    buf = io.BytesIO()
+    with zipfile.ZipFile(buf, 'w') as z:
+        z.writestr(('mibs/' if indir else '') + 'FOO-MIB.txt', content)
+        z.writestr('mibs/UNRELATED.txt', b'other')
+    data = buf.getvalue()
+    for i in range(depth):
+        buf = io.BytesIO()
+        with zipfile.ZipFile(buf, 'w') as z:
+            z.writestr('docs/readme', b'r')
+            z.writestr('nested/inner%d.zip' % i, data)
+        data = buf.getvalue()
+    fd, path = tempfile.mkstemp(suffix='.zip')
+    try:
+        os.write(fd, data)
+        os.close(fd)
+        try:
+            info, text = zipreader.ZipReader(path, ignoreErrors=False).getData('FOO-MIB')
+        except Exception:
+            return False
+    finally:
+        os.unlink(path)
+    return text == content.decode('utf-8') and info.file == 'FOO-MIB.txt'
+
+
 def conditions(prop, tier):
     q = tier == 'quick'
     t = 280 if q else 1500
@@ -357,6 +395,7 @@ def selftests(prop):
             ('file_reader', dict(ask=0, top=2, sub=0, subsub=0, fi=0, ci=1, mt=5, recursive=True, ignoreErrors=True, index=1, unreadable=False, noise=False)),
             ('zip_reader', dict(ask=0, depth=2, fi=2, ci=1, indir=True, dup=True, corrupt=False, present=True)),
             ('zip_reader', dict(ask=1, depth=0, fi=0, ci=1, indir=False, dup=False, corrupt=True, present=True)),
+            ('real_zip', dict(depth=0, indir=False)), ('real_zip', dict(depth=1, indir=True)), ('real_zip', dict(depth=3, indir=True)),
             ('url_dispatch', dict(si=0, ext=1, with_opts=True)), ('url_dispatch', dict(si=4, ext=0, with_opts=False))]
 
 
